@@ -1,4 +1,5 @@
 import Tibc.Lemmas.ClassPath
+import Tibc.Lemmas.NftSteps
 import Tibc.App.Transfer
 /-
   C06 — Failed transfers are refunded exactly; a round trip restores the original.
@@ -216,5 +217,105 @@ theorem nft_refund_exact (a a1 : Apps) (cls id full : Str) (sender receiver : Ad
       simp [hb] at htok
 
 end refund
+
+
+/-! ### a round trip restores the original (NFT), at the application level -/
+
+section roundtrip
+variable (Hc : Str → Str)
+
+/-- an accepted packet moving *away* from the origin leaves, on the receiving chain, exactly one new
+    token: the voucher `(ibcClass path, id)`, owned by the receiver; it did not exist before -/
+theorem recv_away_mints_voucher (a : Apps) (p : Packet) (d : NftData) (hok : (nftRecvAway Hc a p d).2 = .ok) :
+    a.nft.owner (ibcClass Hc (getAway nftPfx p.src.toList p.dst.toList d.cls), d.id) = none ∧
+    (nftRecvAway Hc a p d).1.nft.owner =
+      upd a.nft.owner (ibcClass Hc (getAway nftPfx p.src.toList p.dst.toList d.cls), d.id) (some d.receiver) := by
+  have hvo : ∀ path, (nftVoucherClass Hc a path).1.nft = a.nft := by
+    intro path; unfold nftVoucherClass; simp only; split <;> rfl
+  have hvc : ∀ path, (nftVoucherClass Hc a path).2 = ibcClass Hc path := fun _ => rfl
+  unfold nftRecvAway at hok ⊢
+  simp only at hok ⊢
+  generalize hs1 : (nftVoucherClass Hc a (getAway nftPfx p.src.toList p.dst.toList d.cls)).1 = s1 at hok ⊢
+  have hn1 : s1.nft = a.nft := by rw [← hs1]; exact hvo _
+  rw [hvc] at hok ⊢
+  generalize ibcClass Hc (getAway nftPfx p.src.toList p.dst.toList d.cls) = vc at hok ⊢
+  -- the class step leaves the ownership map alone
+  have hcls : ∀ (r : Apps × Res),
+      (match s1.nft.denom vc with
+        | some _ => (s1, Res.ok)
+        | none => liftNft s1 (s1.nft.issueDenom vc nftModAddr true)) = r →
+      r.1.nft.owner = a.nft.owner := by
+    intro r hr
+    rw [← hr]
+    split
+    · rw [hn1]
+    · simp only [liftNft, NftMod.issueDenom]
+      split <;> rw [hn1]
+  split at hok
+  · simp at hok
+  · rename_i s2 heq2
+    have ho2 : s2.nft.owner = a.nft.owner := by
+      have := hcls _ heq2; simpa using this
+    split at hok
+    · simp at hok
+    · rename_i s3 heq3
+      -- mint to the module account: the token did not exist
+      simp only [liftNft, NftMod.mint] at heq3
+      cases hden : s2.nft.denom vc with
+      | none => simp [hden] at heq3
+      | some dn =>
+        simp only [hden] at heq3
+        by_cases hex : (s2.nft.owner (vc, d.id)).isSome = true
+        · simp [hex] at heq3
+        · simp only [hex, Bool.false_eq_true, if_false, Prod.mk.injEq, and_true] at heq3
+          have hnone : a.nft.owner (vc, d.id) = none := by
+            rw [← ho2]; cases h : s2.nft.owner (vc, d.id) with
+            | none => rfl
+            | some _ => simp [h] at hex
+          refine ⟨hnone, ?_⟩
+          subst heq3
+          simp only [liftNft, NftMod.transferOwner, upd_apply, if_true, bne_self_eq_false, Bool.false_eq_true, if_false, hden] at hok ⊢
+          rw [ho2]
+          funext k; simp only [upd_apply]; split <;> rfl
+
+/-- **A round trip restores the original (NFT).** A native token `(cls, id)` of chain `a` is sent to
+    chain `b` and the voucher is sent straight back. On the origin chain the ownership map ends up
+    exactly as it started, with the token owned by the final receiver (escrow released); on chain
+    `b` the ownership map ends up exactly as it started (the voucher was minted and burned). -/
+theorem nft_round_trip_restores (A B : Apps) (a b : Str) (cls id : Str) (u v u2 : Addr)
+    (p1 : Packet) (d1 d2 : NftData)
+    (ha : delim ∉ a) (hb : delim ∉ b) (hcls : WfBase cls)
+    (hp1 : p1.src.toList = a ∧ p1.dst.toList = b)
+    (hd1 : d1.cls = cls ∧ d1.id = id ∧ d1.receiver = v)
+    (hd2 : d2.cls = getAway nftPfx a b cls ∧ d2.id = id ∧ d2.receiver = u2)
+    -- the four steps were accepted
+    (h1 : (nftSendToken A cls id u true).2 = .ok)
+    (h2 : (nftRecvAway Hc B p1 d1).2 = .ok)
+    (h3 : (nftSendToken (nftRecvAway Hc B p1 d1).1 (ibcClass Hc (getAway nftPfx a b cls)) id v false).2 = .ok)
+    (h4 : (nftRecvBack Hc (nftSendToken A cls id u true).1 d2).2 = .ok) :
+    (nftRecvBack Hc (nftSendToken A cls id u true).1 d2).1.nft.owner = upd A.nft.owner (cls, id) (some u2) ∧
+    (nftSendToken (nftRecvAway Hc B p1 d1).1 (ibcClass Hc (getAway nftPfx a b cls)) id v false).1.nft.owner = B.nft.owner := by
+  constructor
+  · -- origin chain: lock, then release to the receiver
+    obtain ⟨_, hl⟩ := nftSendToken_owner A cls id u true h1
+    obtain ⟨np, hnp, _, hr⟩ := nftRecvBack_owner Hc _ d2 h4
+    have hpf : delim ∉ nftPfx := by decide
+    have hback : getBack d2.cls = some cls := by rw [hd2.1]; exact back_away_base nftPfx a b cls hpf ha hb hcls
+    rw [hback] at hnp
+    cases hnp
+    rw [hr, hl, native_class_consistent Hc cls hcls, hd2.2.1, hd2.2.2]
+    simp only [if_true]
+    funext k; simp only [upd_apply]; split <;> rfl
+  · -- chain b: the voucher is minted, handed to `v`, burned again
+    obtain ⟨hnone, hm⟩ := recv_away_mints_voucher Hc B p1 d1 h2
+    simp only [hp1.1, hp1.2, hd1.1, hd1.2.1, hd1.2.2] at hnone hm
+    obtain ⟨_, hbn⟩ := nftSendToken_owner _ _ id v false h3
+    rw [hbn, hm]
+    simp only [Bool.false_eq_true, if_false]
+    funext k; simp only [upd_apply]; split
+    · rename_i hk; rw [hk, hnone]
+    · rfl
+
+end roundtrip
 
 end Tibc.C06
